@@ -662,30 +662,36 @@ pub fn run_c04(ctx: &Ctx) -> i32 {
             deep_roots.push(Pos::from_fen("r3k2r/p1ppqpb1/bn2pnp1/3PN3/1p2P3/2N2Q1p/PPPBBPPP/R3K2R w KQkq - 0 1").unwrap());
         }
         for p in &deep_roots {
-            for workers in if quick { vec![3usize] } else { vec![3usize, 4] } {
+            // 0 stands for "no explicit count": the shipped default (32 workers from the
+            // fourth iteration on); it needs a larger iteration for the bound to bite
+            for workers in if quick { vec![3usize, 0] } else { vec![3usize, 4, 0] } {
+                let default_workers = workers == 0;
+                let wopt = if default_workers { None } else { Some(workers) };
+                let workers = if default_workers { 32 } else { workers };
+                let min_size = if default_workers { 2_000_000 } else { 400_000 };
                 // measure cumulative node counts per iteration
                 let mut depth = 4;
                 let (mut before, mut size) = (0usize, 0usize);
                 while depth <= 8 {
-                    let cfg = Cfg { seed: 9, depth: Some(depth), workers: Some(workers), plan: Some((0, 0, 0)) };
+                    let cfg = Cfg { seed: 9, depth: Some(depth), workers: wopt, plan: Some((0, 0, 0)) };
                     let run = run_search(p, &cfg, Some(small_artifact(9, (16, 4096))));
                     let cum: Vec<usize> = run.events.iter().filter_map(|e| if let Ev::Progress { nodes, .. } = e { Some(*nodes) } else { None }).collect();
                     if cum.len() >= 2 {
                         before = cum[cum.len() - 2];
                         size = cum[cum.len() - 1] - before;
                     }
-                    if size >= 400_000 {
+                    if size >= min_size {
                         break;
                     }
                     depth += 1;
                 }
-                if size < 400_000 {
-                    ctx.note(format!("deep-stop case skipped for {}: no iteration with 4*10^5 nodes up to depth 8", p.fen()));
+                if size < min_size {
+                    ctx.note(format!("deep-stop case skipped for {} (workers {:?}): no iteration with {} nodes up to depth 8", p.fen(), wopt, min_size));
                     continue;
                 }
                 let k = before + size / 10;
                 let bound = k + workers * POLL + size / 4;
-                let cfg = Cfg { seed: 9, depth: None, workers: Some(workers), plan: Some((k, 0, k + 4 * size + 2_000_000)) };
+                let cfg = Cfg { seed: 9, depth: None, workers: wopt, plan: Some((k, 0, k + 4 * size + 2_000_000)) };
                 let run = run_search(p, &cfg, Some(small_artifact(9, (16, 4096))));
                 ctx.add("deep_stop_runs", 1);
                 if !check_run(ctx, "deep-stop-", p, &cfg, &run, true, &[]) {
@@ -711,7 +717,7 @@ pub fn run_c04(ctx: &Ctx) -> i32 {
         ctx.get("searches") + ctx.get("stop_instant_runs") + ctx.get("shipped_interval_runs") + schedules,
         ctx.get("searches") + ctx.get("stop_instant_runs") + ctx.get("shipped_interval_runs") + schedules,
         exhaustive,
-        &format!("{}{}", "terminal roots: every checkmate and stalemate of the complete families F3 and Fmate searched at depth 1 and 3, the returned artifact then seeds a second search; stop instants: for each (position, depth limit in {1,2,3,none}, workers in {1,2}) of a menu every node index k in 0..=N at which the stop flag is raised, with the flag polled at every node; shipped poll interval: stop raised at the boundaries of the poll windows on unlimited-depth searches incl. the 3-man positions whose search tree is finite, judged by a step bound (nodes entered after the stop); three / four busy workers stopped 10% into an iteration of >= 4*10^5 nodes (every worker must notice the stop itself); protocol: the real Searcher::analyze (caller, control and search thread over the channel model) with six caller scripts x {tiny, stalemate, mate-in-1} roots x depth {1,2,none} - loom reports deadlocks and panics", LOOM_RULE),
+        &format!("{}{}", "terminal roots: every checkmate and stalemate of the complete families F3 and Fmate searched at depth 1 and 3, the returned artifact then seeds a second search; stop instants: for each (position, depth limit in {1,2,3,none}, workers in {1,2}) of a menu every node index k in 0..=N at which the stop flag is raised, with the flag polled at every node; shipped poll interval: stop raised at the boundaries of the poll windows on unlimited-depth searches incl. the 3-man positions whose search tree is finite, judged by a step bound (nodes entered after the stop); three / four busy workers and the default worker count (32) stopped 10% into an iteration of >= 4*10^5 (default count: 2*10^6) nodes (every worker must notice the stop itself); protocol: the real Searcher::analyze (caller, control and search thread over the channel model) with six caller scripts x {tiny, stalemate, mate-in-1} roots x depth {1,2,none} - loom reports deadlocks and panics", LOOM_RULE),
         ASSUME,
     )
 }
@@ -767,7 +773,7 @@ pub fn run_c06(ctx: &Ctx) -> i32 {
     all.extend(deep);
     let sound_depths: Vec<usize> = if quick { vec![1, 2] } else { vec![1, 2, 3, 4] };
     let max_n: u16 = if quick { 3 } else { 5 };
-    let sound_stride = if quick { 11 } else { 1 };
+    let sound_stride = if quick { 29 } else { 1 };
     let items: Vec<(usize, &(Pos, Val))> = all.iter().enumerate().collect();
     par_for(ctx, &items, |&(idx, (p, v)), l| {
         if !p.has_legal_move() {
@@ -831,7 +837,7 @@ pub fn run_c06(ctx: &Ctx) -> i32 {
     });
     // Fmate / 4-man positions through the exhaustive solver
     let no_draw = |_: &Pos| false;
-    let fm: Vec<Pos> = collect_families(&[fmate()], if quick { 5 } else { 1 }).into_iter().step_by(if quick { 11 } else { 3 }).collect();
+    let fm: Vec<Pos> = collect_families(&[fmate()], if quick { 5 } else { 1 }).into_iter().step_by(if quick { 23 } else { 3 }).collect();
     par_for(ctx, &fm, |p, l| {
         if !p.has_legal_move() {
             return;
@@ -871,6 +877,95 @@ pub fn run_c06(ctx: &Ctx) -> i32 {
             }
         }
     });
+    // positions with many men: any mate claim with a stated distance (score above the
+    // terminal threshold encodes the ply of the mate) must be a forced mate within that many
+    // plies by the exhaustive solver, and the first move must keep it
+    {
+        let mut corpus: Vec<Pos> = adversarial_roots();
+        corpus.extend(perft_roots().into_iter().map(|x| x.1));
+        corpus.extend(many_move_positions());
+        let mut level = corpus.clone();
+        for _ in 0..(if quick { 1 } else { 2 }) {
+            let mut next = Vec::new();
+            for p in &level {
+                for (_, n) in p.legal() {
+                    next.push(n);
+                }
+            }
+            next.sort_by(|a, b| a.key().cmp(&b.key()));
+            next.dedup_by(|a, b| a.key() == b.key());
+            corpus.extend(next.iter().cloned());
+            level = next;
+        }
+        // realistic middlegames: positions of the recorded games in /repo/book (replayed by
+        // the reference model) at plies 16, 20, ... 60
+        {
+            let mut files: Vec<_> = std::fs::read_dir("/repo/book").map(|d| d.filter_map(|e| e.ok()).map(|e| e.path()).collect()).unwrap_or_default();
+            files.sort();
+            let mut gi = 0usize;
+            for f in &files {
+                let Ok(text) = std::fs::read_to_string(f) else { continue };
+                for g in oracle::pgn::read_games(&text) {
+                    gi += 1;
+                    if g.tags.iter().any(|(k, _)| k == "FEN") || (quick && gi % 6 != 0) {
+                        continue;
+                    }
+                    let mut p = Pos::startpos();
+                    for (ply, tok) in g.moves.iter().take(61).enumerate() {
+                        if ply >= 16 && ply % (if quick { 4 } else { 2 }) == 0 {
+                            corpus.push(p.clone());
+                        }
+                        match oracle::san::read_san(&p, tok) {
+                            Ok((_, n)) => p = n,
+                            Err(_) => break,
+                        }
+                    }
+                }
+            }
+            // one forcing ply further (every capture and every checking move): positions
+            // with pieces en prise and kings in check, where quiescence decides
+            let base: Vec<Pos> = corpus.iter().skip(1301).step_by(if quick { 3 } else { 1 }).cloned().collect();
+            for p in &base {
+                for (m, n) in p.legal() {
+                    if m.capture != 0 || n.in_check(n.wtm) {
+                        corpus.push(n);
+                    }
+                }
+            }
+            corpus.sort_by(|a, b| a.key().cmp(&b.key()));
+            corpus.dedup_by(|a, b| a.key() == b.key());
+        }
+        corpus.retain(|p| p.has_legal_move());
+        ctx.add("corpus_soundness_positions", corpus.len() as u64);
+        par_for(ctx, &corpus, |p, l| {
+            for d in 1..=(if quick { 2usize } else { 3 }) {
+                let cfg = Cfg { seed: seeds[0], depth: Some(d), workers: Some(1), plan: None };
+                let run = run_search(p, &cfg, Some(small_artifact(seeds[0], (4, 256))));
+                l.inc("searches");
+                if !check_run(ctx, "", p, &cfg, &run, true, &[]) {
+                    return;
+                }
+                for (line, eval) in run.bests() {
+                    if eval > i32::from(Evaluation::POS_INF) {
+                        // 10000 + 100 * (10 - ply)
+                        let ply = 10 - (eval - 10_000) / 100;
+                        if ply >= 1 && ply <= (if quick { 3 } else { 5 }) {
+                            l.inc("corpus_mate_claims");
+                            let mv = mv_of(&line[0]);
+                            if !mate_preserving_moves(p, ply as u32, &no_draw).contains(&mv) {
+                                ctx.violation(
+                                    "false-mate-claim",
+                                    format!("{} | {}", p.fen(), cfg.json()),
+                                    json!({"fen": p.fen(), "config": cfg.json(), "evaluation": eval, "claimed_mate_in_plies": ply, "line": lan_line(line), "explanation": "the exhaustive solver finds no forced mate within the claimed number of plies after this first move"}),
+                                );
+                                return;
+                            }
+                        }
+                    }
+                }
+            }
+        });
+    }
     let ex = all.iter().find(|(_, v)| matches!(v, Val::Win(3))).unwrap();
     ctx.sample(json!({"position": ex.0.fen(), "tablebase": "side to move mates in 3 plies", "searched_depths": [3, 4, 5], "checked": "final evaluation >= POS_INF and the first move's successor is lost for the opponent per tablebase"}));
     let schedules = loom_part(ctx, crate::loomrun::jobs_c06(quick));
@@ -881,7 +976,7 @@ pub fn run_c06(ctx: &Ctx) -> i32 {
         ctx.get("searches") + schedules,
         ctx.get("searches") + schedules,
         exh,
-        &format!("{}{}", "tablebase families (quick: all of KRK strided 1/7 for soundness + every KQK/KRK win in <= 3 plies for completeness; thorough: all of KQK, KRK, KPK, wins in <= 5 plies), both colours as the strong side; soundness: depths 1..2 (thorough 4), every BestMove with evaluation >= POS_INF must be a tablebase win whose first move leads to a tablebase loss for the opponent; completeness: mate in n plies searched at depth n, n+1, n+2 x seeds must end with evaluation >= POS_INF and a mate-preserving first move; Fmate sub-family judged by the exhaustive solver", LOOM_RULE),
+        &format!("{}{}", "tablebase families (quick: all of KRK strided 1/29 for soundness + every KQK/KRK win in <= 3 plies for completeness; thorough: all of KQK, KRK, KPK, wins in <= 5 plies), both colours as the strong side; soundness: depths 1..2 (thorough 4), every BestMove with evaluation >= POS_INF must be a tablebase win whose first move leads to a tablebase loss for the opponent; completeness: mate in n plies searched at depth n, n+1, n+2 x seeds must end with evaluation >= POS_INF and a mate-preserving first move; Fmate sub-family judged by the exhaustive solver; many-men corpus (adversarial, perft and many-move roots and their successors, and the positions of the recorded games in /repo/book at plies 16..60): every mate claim with a stated distance <= 3 (thorough 5) plies must be a forced mate within that distance by the solver", LOOM_RULE),
         ASSUME,
     )
 }
@@ -894,10 +989,12 @@ pub fn run_c17(ctx: &Ctx) -> i32 {
     let tb = Tablebase::build(threads());
     let seeds = seeds(ctx);
     let mut roots: Vec<Pos> = Vec::new();
-    for k in [QUEEN, ROOK] {
+    for k in [QUEEN, ROOK, PAWN] {
         for (i, (p, v)) in tb.positions(k).enumerate() {
-            // all mates in 1; thorough adds every 12th mate in 3 (the solver for the
-            // repetition-aware distance costs 2*10^5 nodes per choice there)
+            // all mates in 1 (for the pawn these are mates by promotion: the recorded
+            // successor is reached by a pawn move, halfmove clock 0); thorough adds every
+            // 12th mate in 3 (the solver for the repetition-aware distance costs 2*10^5
+            // nodes per choice there)
             if v == Val::Win(1) || (!quick && v == Val::Win(3) && i % 12 == 0) {
                 roots.push(p.mirror());
                 roots.push(p);
@@ -1042,7 +1139,7 @@ pub fn run_c17(ctx: &Ctx) -> i32 {
         ctx.get("searches") + schedules,
         ctx.get("searches") + schedules,
         exh,
-        &format!("{}{}", "every KQK/KRK tablebase position (both colours) with mate in 1 ply, plus a strided slice of the mates in 3 plies (quick: every 150th with the fastest mating move recorded; thorough: every 12th with every choice), with at least two mate-preserving first moves; the recorded position enters the history either by the hook on a fresh memory or by really having been searched on the same memory before x every choice of the recorded successor x depths n'..n'+2 (n' = shortest forced mate, <= 5 plies, in the game where entering the recorded position or the root again is a draw, by the exhaustive solver) x seeds; plus the root itself recorded twice", LOOM_RULE),
+        &format!("{}{}", "every KQK/KRK/KPK tablebase position (both colours) with mate in 1 ply (KPK: mates by promotion, i.e. recorded successors reached by a pawn move), plus a strided slice of the mates in 3 plies (quick: every 150th with the fastest mating move recorded; thorough: every 12th with every choice), with at least two mate-preserving first moves; the recorded position enters the history either by the hook on a fresh memory or by really having been searched on the same memory before x every choice of the recorded successor x depths n'..n'+2 (n' = shortest forced mate, <= 5 plies, in the game where entering the recorded position or the root again is a draw, by the exhaustive solver) x seeds; plus the root itself recorded twice", LOOM_RULE),
         ASSUME,
     )
 }
